@@ -11,6 +11,7 @@ NoScripts == <<>>
 ScriptsFromFile == ndJsonDeserialize("vt_scripts.ndjson")
 FillNone == {1}
 FillBig == {1, 2, 5, 17, 33, 40, 90, 250, 600}
+FillHuge == {1, 2, 5, 17, 33, 40, 90, 250, 600, 1000}
 FillMid == {1, 2, 5, 17, 33, 40, 90}
 \* the view that also separates history keys (iavl: the outcome of a save on an existing version depends on them)
 ViewH == <<work, saved, exists, first, latest, ver, dirty, poisoned, readers, n, pend, shk>>
